@@ -27,6 +27,9 @@ def main():
         elif a[i] == "--only": only = a[i + 1].split(","); i += 2
         elif a[i] == "--props": props = a[i + 1].split(","); i += 2
         else: raise SystemExit("bad arg")
+    # the checks run from a private snapshot of /verif, so that editing /verif meanwhile cannot break them
+    SNAP = "/var/tmp/vsnap.%d" % os.getpid()
+    sh("rsync -a --exclude .git --exclude replays --exclude 'seeded/tmp' /verif/ %s/" % SNAP)
     man = json.load(open("/verif/MANIFEST.json"))
     claimed = props or sorted(p["property_id"] for p in man["checks"])
     seeds = sorted(d for d in os.listdir("/verif/seeded") if os.path.exists("/verif/seeded/%s/patch.diff" % d))
@@ -44,7 +47,7 @@ def main():
                 print(sd, "APPLY FAILED", o[-300:]); continue
 
             def one(p):
-                rc, o = sh("./check %s --tier %s" % (p, tier), cwd="/verif", env=dict(ENV, VERIF_REPO=W, VERIF_SEED="1"))
+                rc, o = sh("./check %s --tier %s" % (p, tier), cwd=SNAP, env=dict(ENV, VERIF_REPO=W, VERIF_SEED="1"))
                 v = [l for l in o.splitlines() if l.startswith("VIOLATION")]
                 if not v:
                     return p, None
@@ -60,6 +63,7 @@ def main():
             shutil.rmtree(S, ignore_errors=True)
             sh("git -C /repo worktree prune")
         json.dump(matrix, open(mpath, "w"), indent=1, sort_keys=True)
+    shutil.rmtree(SNAP, ignore_errors=True)
     # markdown
     allp = sorted({p for r in matrix.values() for p in r})
     with open("/verif/seeded/MATRIX.md", "w") as fh:
